@@ -137,4 +137,17 @@ def fitsPairs : List (GoVal × GoVal) → Bool
   | (k, v) :: kvs => fitsVal k && (fitsVal v && fitsPairs kvs)
 end
 
+/-- Field values well-typed one by one, WITHOUT the canonical-representative condition on
+`omitempty` fields (an `omitempty` field may hold an empty, non-nil value). -/
+def wtFieldsLoose (cfg : DecCfg) : List (Bytes × Bool × GoType) → List GoVal → Bool
+  | [], [] => true
+  | (_, _, t) :: fs, v :: vs => wt cfg t v && wtFieldsLoose cfg fs vs
+  | _, _ => false
+
+/-- Normal form of a struct's field values under the codec: an `omitempty` field that is empty is
+not written and therefore reads back as the zero value of its type. -/
+def normFields : List (Bytes × Bool × GoType) → List GoVal → List GoVal
+  | (_, om, t) :: fs, v :: vs => (if om && v.isEmpty then zeroVal t else v) :: normFields fs vs
+  | _, _ => []
+
 end Juno.C07
